@@ -251,6 +251,8 @@ tagspec(struct scope *s)
 			error(&tok.loc, "struct/union has no members");
 		next();
 		/* a packed struct has alignment 1 unless a member has an alignment specifier */
+		if (ALIGNUP(t->size, t->align) < t->size)
+			error(&tok.loc, "%s is too large", tokstr[t->kind == TYPESTRUCT ? TSTRUCT : TUNION]);
 		t->size = ALIGNUP(t->size, t->align);
 		break;
 	case TYPEENUM:
@@ -851,6 +853,8 @@ addmember(struct structbuilder *b, struct qualtype mt, char *name, int align, un
 		}
 		if (t->kind == TYPESTRUCT) {
 			m->offset = ALIGNUP(t->size, align);
+			if (m->offset < t->size || mt.type->size > ULLONG_MAX - m->offset)
+				error(&tok.loc, "struct is too large");
 			t->size = m->offset + mt.type->size;
 		} else {
 			m->offset = 0;
@@ -873,6 +877,8 @@ addmember(struct structbuilder *b, struct qualtype mt, char *name, int align, un
 		if (t->kind == TYPESTRUCT) {
 			/* calculate end of the storage-unit for this bit-field */
 			end = ALIGNUP(t->size, mt.type->size);
+			if (end < t->size)
+				error(&tok.loc, "struct is too large");
 			if (!width || width > (end - t->size) * 8 + b->bits) {
 				/* no room, allocate a new storage-unit */
 				t->size = end;
